@@ -37,17 +37,21 @@
      MatrixMultiply            matmul_fw (8x8x8 blocked) / ga += matmul_fw(gy, transpose_fw(b)),
                                gb += matmul_fw(transpose_fw(a), gy)  (Tensor/AdjMatmul.v)
      Convolution2D             conv2d_fw / conv2d_bw over the same triples
+     AddScalar, SubtractScalarR, SubtractScalarL, MultiplyScalar   scalar_fw / gx0 += or -= gy (times x1),
+                               gx1 += or -= sum(gy (times x0) .flatten(), 0), folding into batch-1 operands
+                               (Tensor/AdjScalar.v)
    NOT covered (they are not polynomial over a commutative ring, or need kernels that
    Tensor/Kernels.v does not model; their backward rules stay at the kernel / scalar level of
    Properties_C01_{scalar,bilinear,perm}.v and at correspondence level):
      the elementwise functions with analytic derivatives (Abs Sqrt Exp Log Tanh Sigmoid Softplus
      Sin Cos Tan ReLU LReLU PReLU ELU PowN, the Pow, Divide and DivideConst families), Max / Min / MaxPooling2D
      (argmax selection), LogSumExp, SoftmaxCrossEntropy, SparseSoftmaxCrossEntropy, and the
-     ...Scalar variants (AddScalar to PowScalarL: scalar_fw, and sum(flatten) in the backward). *)
+     Divide / Pow ...Scalar variants.  The elementwise ones are added over the reals in
+     Tensor/GraphInstR.v. *)
 From Coq Require Import List NArith Bool Arith Lia Ring Permutation.
 From PV Require Import Graph.OpFamily Graph.Tape Graph.Lazy Graph.Backward Graph.TapeLemmas Graph.LazyProofs
   Graph.BackwardProofs Graph.ADProof Tensor.Kernels Tensor.Index Tensor.KernelProofs
-  Tensor.ProofsGather Tensor.ProofsPerm Tensor.ProofsBilinear Tensor.AdjCore Tensor.AdjMatmul.
+  Tensor.ProofsGather Tensor.ProofsPerm Tensor.ProofsBilinear Tensor.AdjCore Tensor.AdjMatmul Tensor.AdjScalar.
 Import ListNotations.
 
 (* ================================================================== guards (scalar-free) *)
@@ -506,7 +510,11 @@ Section Family.
   | OSubConstR (s : tshape) (k : R)
   | OSubConstL (s : tshape) (k : R)
   | OMulConst (s : tshape) (k : R)
-  | ONeg (s : tshape).
+  | ONeg (s : tshape)
+  | OAddScalar (sx sk : tshape)
+  | OSubScalarR (sx sk : tshape)
+  | OSubScalarL (sx sk : tshape)
+  | OMulScalar (sx sk : tshape).
 
   Definition leaf_desc (s : tshape) (v : list R) (ok nop : bool) : opdesc :=
     {| d_args := []; d_rets := [s]; d_ok := ok; d_nop := nop;
@@ -581,6 +589,10 @@ Section Family.
     | OSubConstL s k => un_desc rO radd s (fun x => rsub k x) (fun d => ropp d) (fun u => ropp u)
     | OMulConst s k => un_desc rO radd s (fun x => rmul x k) (fun d => rmul d k) (fun u => rmul k u)
     | ONeg s => unary_lin s s (0 <? tbatch s) (un_eval R rO ropp (tsize s)) (fun gy => plus_eq s (vneg ropp gy))
+    | OAddScalar sx sk => addsc_desc rO radd sx sk
+    | OSubScalarR sx sk => subscr_desc rO radd rsub ropp sx sk
+    | OSubScalarL sx sk => subscl_desc rO radd rsub ropp sx sk
+    | OMulScalar sx sk => mulsc_desc rO radd rmul sx sk
     end.
 
   Definition core_family : OpFamily cop tshape (@OpFamily.vec R) :=
@@ -662,6 +674,10 @@ Section Family.
       apply (post_plus_eq _ s _ (vneg ropp)); [|exact H].
       apply (adj_ext rO radd rmul _ _ (vneg ropp) _ (vneg ropp) (vneg ropp)); [apply (vneg_adj rO rI radd rmul rsub ropp Rth)| |reflexivity].
       intros dx Hd. rewrite <- Hd. apply un_eval_map.
+    - (* AddScalar *) apply (addsc_LA rO rI radd rmul rsub ropp Rth).
+    - (* SubtractScalarR *) apply (subscr_LA rO rI radd rmul rsub ropp Rth).
+    - (* SubtractScalarL *) apply (subscl_LA rO rI radd rmul rsub ropp Rth).
+    - (* MultiplyScalar *) apply (mulsc_LA rO rI radd rmul rsub ropp Rth).
   Qed.
 
     Theorem core_LocalAdjoint (o : cop) : LocalAdjoint rO radd rmul core_family core_jvp tsize o.
